@@ -21,7 +21,7 @@ MANIFEST = {
 }
 
 RULE = ("fixed malformed/edge grammars; every grammar text in the repo (tpl/parser/_testdata, tpl`...` literals in demo/doc/cl/parser "
-        "test data); exhaustive normal-form expressions up to N nodes (quick 4, thorough 5) over {ident, string}; random normal-form "
+        "test data); exhaustive normal-form expressions up to N nodes (quick 4, thorough 6) over {ident, string}; random normal-form "
         "expressions (<= 25 nodes; all operators, identifiers incl. non-ASCII, char/string/raw literals) printed with minimal "
         "parentheses and random blanks/comments/newlines, each also as a `tplprint` case; the same with one operand removed (hole) and "
         "with 1-3 token-level mutations (drop, insert stray operator/bracket, duplicate, swap); a case is distinct by its token list and "
@@ -33,5 +33,5 @@ def run(ctx):
         "the real TPL scanner is deterministic and keeps returning EOF after the first EOF (checked on every case: EOF-NOT-STICKY marker)",
         "parser errors are told apart from scanner errors by their 'expected ...' wording (count cross-checked on every case)",
     ]
-    common.standard(ctx, "GopModel.Props.C31", "c31", 3000, 40000, RULE,
+    common.standard(ctx, "GopModel.Props.C31", "c31", 3000, 250000, RULE,
                     extract=("tpltoken",), driver="drv_tplfront")
